@@ -40,7 +40,10 @@ type c05Ent struct {
 }
 
 // c05Op is one generated operation. Paths are relative to the tree root; the path mode decides
-// whether the client sees them as "<rootA>/<p>" (abs) or verbatim (rel, server working directory).
+// whether the client sees them as "<rootA>/<p>" (abs), verbatim (rel, server working directory) or as a path
+// relative to the directory the PROCESS is in (cwd, server without a working directory; see c05_cwd.go).
+// K "chdir" (path mode cwd only) is not a client operation: the process directory used for the following
+// operations becomes the directory P names, in either tree.
 type c05Op struct {
 	K    string `json:"k"`
 	P    string `json:"p,omitempty"`    // path (symlink: link TEXT; link/rename: old name; glob: pattern)
@@ -58,7 +61,8 @@ type c05Op struct {
 }
 
 type c05Input struct {
-	Mode string   `json:"mode"` // abs | rel
+	Mode string   `json:"mode"`           // abs | rel | cwd
+	Cons string   `json:"cons,omitempty"` // cwd: where the process was when the server was constructed: root (of tree A) | elsewhere (a third copy of the tree)
 	Tree []c05Ent `json:"tree"`
 	Ops  []c05Op  `json:"ops"`
 }
@@ -493,7 +497,7 @@ func c05Shape(root, rel string) (shape string, viaLink bool) {
 type c05Gen struct {
 	rng   *rand.Rand
 	rootB string
-	pmode string // abs | rel: the path mode of the sequence (decides which spellings of a path are generated)
+	pmode string // abs | rel | cwd: the path mode of the sequence (decides which spellings of a path are generated)
 	plain bool   // the operation being generated gets canonical spellings only (see spell)
 }
 
@@ -636,6 +640,8 @@ func c05NonCanonAll() bool { return os.Getenv("VERIF_C05_NONCANON") == "1" }
 //   - ABSOLUTE paths without a server working directory (path mode abs): generated by default, one path in eight.
 //     The server hands such a path to the kernel as written, so every operation must behave like package os on
 //     the same spelling.
+//   - paths relative to the PROCESS directory, server without a working directory (path mode cwd): the same — the
+//     kernel gets the relative path as the client wrote it, exactly as it gets it from package os in that directory.
 //   - working-directory-relative paths (path mode rel): only with VERIF_C05_NONCANON=1.  The unchanged server
 //     path.Join's them onto the working directory, which cleans them lexically — a difference the package's own
 //     tests pin down (TestServer_toLocalPath) and DESIGN.md lists; see classify, key workdir/path-cleaned-lexically.
@@ -651,7 +657,7 @@ func (g *c05Gen) spell(p string, ents []c05Entry) string {
 	prob := 0
 	switch {
 	case g.plain && !all:
-	case g.pmode == "abs":
+	case g.pmode == "abs" || g.pmode == "cwd":
 		prob = 12
 	case all:
 		prob = 5
@@ -804,6 +810,19 @@ func (g *c05Gen) mode() uint32 {
 // next generates one operation from the current state of tree B.
 func (g *c05Gen) next() c05Op {
 	ents := g.entries()
+	if g.pmode == "cwd" && g.rng.Intn(100) < 7 { // the process moves: into a directory, through a link to one, back to the root
+		op := c05Op{K: "chdir", P: "."}
+		switch x := g.rng.Intn(10); {
+		case x < 2:
+		case x < 6:
+			op.P = g.existing(ents, "dir")
+		case x < 8:
+			op.P = g.existing(ents, "dirsym")
+		default:
+			op.P = g.plainPath(ents)
+		}
+		return op
+	}
 	total := 0
 	for _, w := range c05OpWeights {
 		total += w.w
